@@ -49,6 +49,14 @@ CLAIMED = {
           "Seeded histories (advances around bucket and window edges, samples equal to bounds, negatives, zero, infinities, NaN; seeded matcher sets, bucket counts and durations) drive the real Prometheus recorder and a direct Histogram; oracle: count at bound b = #samples <= b, cumulative, never decreasing over time, +Inf = total, single vs batched identical, histogram-vs-summary type and the applicable bounds by full > prefix > suffix > global precedence, summary quantiles inside the range of samples that can be inside the rolling window (0 when none can) and never influenced by samples older than the window, _sum/_count covering everything.",
           "Half of this property is a pure function of its inputs and is checked as an invariant on the states the simulated histories reach, not claimed as a result of schedule search; summary-typed metrics get finite samples only; 0.2% tolerance for the sketch.",
           "DESIGN.md 4/C15"),
+  "C09": ("deterministic simulation (dsim) with fault injection: seeded write/drain histories on one PayloadWriter; and the whole exporter (forwarder loop on virtual time) against a simulated agent socket with seeded send faults",
+          "(i) Seeded histories of write_counter/gauge/histogram/distribution and drains (flush cycles) on ONE writer through the guarded driver: size limits from 0 upward, with/without length prefix, prefix and label lengths up to beyond the limit, u64/f64 extremes and non-finite values, 0..3000 histogram values, size-rejected metrics followed by metrics that fit; every payload is parsed by an independent DogStatsD parser and every input point must be in exactly one payload or reported dropped, with exact little-endian length prefixes. (ii) The real DogStatsDBuilder::build pipeline on virtual time against simulated UDP / unixgram / unix-stream peers with drop, duplicate, ECONNREFUSED, ENOBUFS, timeout, short write, EINTR, EPIPE and reset faults: well-formed messages within the limit, whole length-prefixed frames (a fragment only where a connection ended in an injected error). Three genuine defects found this way were repaired.",
+          "Names and labels use an alphabet without DogStatsD delimiters; layer (i) has no schedule dimension (single simulated thread); conservation in layer (ii) is asserted in fault-free runs only.",
+          "DESIGN.md 4/C09"),
+  "C10": ("deterministic simulation (dsim) with fault injection: seeded schedules of updater threads racing State::flush at atomic-step granularity; and the real forwarder loop on virtual time against a simulated, faulty agent socket",
+          "(i) 1-3 updater threads (increment-only counter, single-writer absolute counter, gauge sets, histogram records) race a flusher thread calling the real State::flush; oracle per key over the whole run with three quiescent flushes at the end: deltas add up exactly, cumulative deltas never exceed what was added, every flush carries a value the gauge held in its window, every histogram value in exactly one flush, exactly one idle zero then silence, |T present exactly in the mode documented to send it, prefix and tag order. (ii) the built exporter on virtual time against simulated UDP / unixgram / unix-stream peers with send faults: framing, well-formedness, and the same conservation oracle per flush cycle in fault-free runs. The inverted timestamp rule and the update-count-keyed idle logic were found and repaired; the first-absolute/flush race is a recorded known finding.",
+          "Sequentially consistent interleavings only; sampling is off (exact identities); in (ii) application updates happen mid-interval (races are (i)'s job).",
+          "DESIGN.md 4/C10"),
 }
 
 NOT_APPLICABLE = {
